@@ -958,7 +958,7 @@ def translate_function(em, f):
             # switch spans multiple lines
             if re.match(r'\s*switch ', ln) and ln.rstrip().endswith('['):
                 k = j + 1
-                while lines[k].strip() != ']':
+                while not lines[k].strip().startswith(']'):
                     ln += ' ' + lines[k].strip(); k += 1
                 ln += ' ]'
                 j = k
